@@ -1500,7 +1500,8 @@ class Bits:
             # Removes the offset and truncates to length
             return self._bitstore.getslice(0, len(self))._bitarray
         else:
-            return self._bitstore._bitarray
+            # Return a copy, so that changes to the bitarray can't change the bitstring.
+            return self._bitstore._bitarray.copy()
 
     def tofile(self, f: BinaryIO) -> None:
         """Write the bitstring to a file object, padding with zero bits if needed.
